@@ -49,7 +49,13 @@ var utf8Invalid = []string{
 	"\xed\xbf\xbf", "\xf0\x80\x80\x80", "\xf0\x8f\xbf\xbf", "\xf0\x90\x80", "\xf4\x90\x80\x80", "\xf5\x80\x80\x80", "\xf8\x88\x80\x80\x80",
 	"\xfe", "\xff", "abc\xe2\x82", "\xce\xba\xe1\xbd\xb9\xcf\x83\xce\xbc\xce\xb5\xed\xa0\x80edited", "ok\xf4\x8f\xbf", "\xe2\x82\xac\xac",
 	"\xce\xba\xe1\xbd\xb9\xcf\x83\xce\xbc\xce\xb5\xf4\x90\x80\x80edited",
+	// invalid only across what could be a fragment boundary: a character cut short and followed by something else
+	"\xe2\x82A", "\xe2(\xa1", "\xc2\xc2\xa2", "\xf0\x90\x80", "\xf0\x90A\x80", "\xf0\x9f\x98", "\xe2\x82\xe2\x82\xac", "a\xc2", "\xdf", "\xf4\x8f\xbf",
 }
+
+// 2-, 3- and 4-byte characters, alone and between ASCII: cut at every inner position into up to four fragments
+var utf8Cut = []string{"\xc2\xa2", "\xe2\x82\xac", "\xf0\x90\x8d\x88", "\xf4\x8f\xbf\xbf", "a\xc2\xa2b", "a\xe2\x82\xacb", "a\xf0\x90\x8d\x88b",
+	"\xc2\xa2\xe2\x82\xac", "\xe2\x82\xac\xf0\x9f\x98\x80"}
 
 type seqCase struct {
 	Class  string
@@ -119,6 +125,19 @@ func systematic13() []seqCase {
 			if len(p) >= 2 {
 				fr := fragments(1, p, []int{len(p) / 2})
 				add(cl+"/text-ping-between", false, false, fr[0], dataFrame(9, true, []byte("mid")), fr[1], tail)
+			}
+		}
+	}
+	for _, s := range utf8Cut {
+		p := []byte(s)
+		for i := 0; i <= len(p); i++ {
+			for j := i; j <= len(p); j++ {
+				for k := j; k <= len(p); k++ {
+					if len(p) > 5 && k != j {
+						continue // longer strings: up to three fragments
+					}
+					add("utf8-cut/text-fragments", false, false, append(fragments(1, p, []int{i, j, k}), tail)...)
+				}
 			}
 		}
 	}
@@ -382,7 +401,7 @@ func run13(sc seqCase) {
 	if len(wire) > 30000 && !thorough {
 		segs = segs[:3]
 	}
-	for _, sg := range segs {
+	for si, sg := range segs {
 		rp := replay13{Seed: rep.Seed, Class: sc.Class, Receiver: rcfg, Frames: descr, SegKind: sg.Kind, Cuts: sprintCuts(sg.Cuts),
 			Expect:   fmt.Sprintf("%s at frame %d (%s); %d deliveries, %d pongs", exp.End, exp.EndAt, exp.Why, len(exp.Deliver), len(exp.Pongs)),
 			HowToRun: "feed wire_hex, cut at `cuts`, to Conn.Parse of a server/client Conn built as in harness/cmd/wscodec/endpoint.go (newEndpoint)"}
@@ -405,6 +424,27 @@ func run13(sc seqCase) {
 		}
 		cutAfterEnd := exp.EndAt >= 0 && containsInt(sg.Cuts, bounds[exp.EndAt])
 		oracle13(ep, res, exp, cutAfterEnd || exp.EndAt == len(sc.Frames)-1, rp)
+		// the other handler configurations (implementation-side oracle only)
+		if sc.Few && !strings.HasPrefix(sc.Class, "random") {
+			continue
+		}
+		modes := []string{"frame", "both", "none"}
+		if si >= 2 || strings.HasPrefix(sc.Class, "random") {
+			modes = []string{modes[rng.Intn(3)]}
+		}
+		for _, hm := range modes {
+			hcfg := rcfg
+			hcfg.Handlers = hm
+			hcfg.Decomp = 0
+			rph := rp
+			rph.Receiver = hcfg
+			eph := newEndpoint(hcfg, func(max int) int { return 1 + rng.Intn(max) })
+			resh := eph.feed(cutAt(wire, sg.Cuts), 1)
+			rep.Case(fmt.Sprintf("13h/%s/%s/encomp=%v/%s", hm, sc.Class, sc.EnComp, sg.Kind), len(wire) >= 2)
+			rep.Stat("13h:handlers=" + hm)
+			// EndAt may differ between the strict and the frame-level reference: exactness is judged per reference inside
+			oracle13h(eph, resh, sc.Frames, sc.EnComp, sg.Kind == "per-frame", rph)
+		}
 	}
 	if len(rep.Samples) < 5 && rng.Intn(50) == 0 {
 		rep.Sample(map[string]interface{}{"part": 13, "class": sc.Class, "frames": descr, "rfc": exp.End, "why": exp.Why})
@@ -442,16 +482,17 @@ func oracle13(ep *endpoint, res []opRes, exp expect, exact bool, rp replay13) {
 
 // the handler configurations other than "OnMessage only" (which the model covers).  What the code promises on the pinned
 // tree, and what is demanded here:
-//   both   (OnMessage + OnDataFrame): everything as with OnMessage alone (verdict, deliveries, replies); in addition every
-//          non-empty data frame in front of the frame that ends the connection reaches OnDataFrame, in order, with the
-//          type of its MESSAGE, its FIN bit and its raw payload (frames of a message that later turns out invalid have been
-//          handed over already: streaming)
-//   frame  (OnDataFrame only) / none: messages are never assembled, so the checks that need a whole message (UTF-8 of a text
-//          message, inflating) are not made by the code; demanded: a sequence RFC 6455 allows is ACCEPTED (frames delivered,
-//          connection open) - in particular text fragments that cut a multi-byte character; everything the frame header and
-//          the control frames decide (reserved bits/opcodes, sequencing, control > 125 or fragmented, close codes, close
-//          reason UTF-8, pings answered, close echoed) as always.  An invalid-UTF-8 / non-inflating message may be accepted
-//          or failed (both the strict and the frame-level reference are admissible), nothing reaches OnMessage.
+//
+//	both   (OnMessage + OnDataFrame): everything as with OnMessage alone (verdict, deliveries, replies); in addition every
+//	       non-empty data frame in front of the frame that ends the connection reaches OnDataFrame, in order, with the
+//	       type of its MESSAGE, its FIN bit and its raw payload (frames of a message that later turns out invalid have been
+//	       handed over already: streaming)
+//	frame  (OnDataFrame only) / none: messages are never assembled, so the checks that need a whole message (UTF-8 of a text
+//	       message, inflating) are not made by the code; demanded: a sequence RFC 6455 allows is ACCEPTED (frames delivered,
+//	       connection open) - in particular text fragments that cut a multi-byte character; everything the frame header and
+//	       the control frames decide (reserved bits/opcodes, sequencing, control > 125 or fragmented, close codes, close
+//	       reason UTF-8, pings answered, close echoed) as always.  An invalid-UTF-8 / non-inflating message may be accepted
+//	       or failed (both the strict and the frame-level reference are admissible), nothing reaches OnMessage.
 func oracle13h(ep *endpoint, res []opRes, frames []rawFrame, encomp bool, exact bool, rp replay13) {
 	mode := ep.cfg.Handlers
 	strict := rfcRefOpt(frames, encomp, true)
@@ -657,6 +698,7 @@ func check13(ep *endpoint, res []opRes, exp expect, exact bool, wantMsgs bool) (
 			}
 		}
 	}
+	return
 }
 
 func minInt(a, b int) int {
